@@ -86,14 +86,14 @@ def run(ctx):
     fails, corr, evals, states = [], [], 0, 0
     samples = []
     dist = {"prior": {}, "nested": 0, "states_per_world": []}
-    for w in worlds(rnd, ctx.scale(9, 120)):
+    for wi, w in enumerate(worlds(rnd, ctx.scale(9, 30))):
         base = rt.mktemp("c15_")
         try:
             impl = scenario.Impl({"root": "root", "tree": w["tree"]}, base)
             for op in w["ops"]:
                 impl.run(dict(op))
             fin = dict(w["final"])
-            res = crash.enumerate_crash_states(impl.root, lambda: impl.run(fin), torn_mode="all" if ctx.thorough else "sample", limit=ctx.scale(260, 4000))
+            res = crash.enumerate_crash_states(impl.root, lambda: impl.run(fin), torn_mode="all" if ctx.thorough and wi < 5 else "sample", limit=ctx.scale(260, 2500))
             evals += 1
             states += res["states"]
             dist["prior"][w["c15"]["prior_root_generations"]] = dist["prior"].get(w["c15"]["prior_root_generations"], 0) + 1
@@ -113,10 +113,10 @@ def run(ctx):
     for msg in witnesses.ALL["D6"]():
         fails.append({"what": f"regression of fixed defect D6: {msg}", "replay": {"witness": "D6"}, "signature": None})
     cov = {"evaluations": states, "distinct_nontrivial": states,
-           "rule": "one evaluation = one crash state (a prefix of the recorded file-system operations of the real create, the last write whole, absent or torn) materialised on a copy of the pre-state and examined: committed manifests byte-identical, chain parses and lists the committed generations, info and verify load the history, no partial file visible as a generation; worlds: flat and nested histories with 0..3 prior generations, folder and -sf mode",
+           "rule": "one evaluation = one crash state (a prefix of the recorded file-system operations of the real create, the last write whole, absent or torn; and the same prefixes with the data still in user-space buffers - written but not yet flushed or closed - lost) materialised on a copy of the pre-state and examined: committed manifests byte-identical, chain parses and lists the committed generations, info and verify load the history, no partial file visible as a generation; worlds: flat and nested histories with 0..3 prior generations, folder and -sf mode",
            "samples": samples, "input_distribution": dist, "worlds": evals, "monitor": {"cases": states, "failing": len([f for f in fails if f.get('signature') is None])}, "exhaustive": bool(ctx.thorough),
-           "exhaustive_note": "thorough: every byte position of every write is a crash point" if ctx.thorough else "quick: writes are torn at 1 byte, the middle and the last byte"}
-    return fw.finish(ctx, cov, fails, corr, assumptions=["process kill, not power loss: data written before the kill stays, operations are not reordered", "os.replace is atomic"])
+           "exhaustive_note": "thorough: in the first five worlds every byte position of every write is a crash point" if ctx.thorough else "quick: writes are torn at 1 byte, the middle and the last byte"}
+    return fw.finish(ctx, cov, fails, corr, assumptions=["process kill, not power loss: data that reached the OS before the kill stays (data handed to write() may or may not have reached it before flush/close: both extremes are enumerated), operations are not reordered", "os.replace is atomic"])
 
 
 def replay(ctx, path):
